@@ -663,6 +663,9 @@ again:
             return flatcc_json_parser_set_error(ctx, buf, end, flatcc_json_parser_error_expected_colon);
         }
         buf = flatcc_json_parser_space(ctx, buf + 1, end);
+        if (buf == end) {
+            return flatcc_json_parser_set_error(ctx, buf, end, flatcc_json_parser_error_unbalanced_object);
+        }
     }
     switch (*buf) {
     case '\"':
